@@ -265,16 +265,19 @@ def c12_runtime(chk, results):
         the process) is a deadlock — an error path that re-enters or does not release a lock."""
     import crash as crashmod
     cov = {}
-    p = run([DRIVE_BIN, "--hung"], env=ENV, timeout=600)
-    lines = [l for l in p.stdout.splitlines() if l.startswith("HUNG ")]
-    bad = [l for l in lines if "verdict=ok" not in l]
-    cov["hung_update_scenario"] = {"stages": ["event", "check", "download"], "calls_timed": len(lines), "limit_ms": 10000,
-                                   "blocked_or_wrong": len(bad)}
-    if p.returncode != 0 or len(lines) < 27 or bad:
-        why = bad[0] if bad else "the scenario did not complete: rc=%d %s" % (p.returncode, p.stderr[-300:].replace("\n", " "))
-        path = chk.save_replay("C12-hung-update.txt", "# hung-scenario\n# C12: %s\n# replay: tools/replay.sh <this file>   (runs the harness's `drive --hung`)\n%s\n"
-                               % (why, "\n".join(lines)))
-        chk.violations.append({"replay": path, "signature": "hung-update:" + re.sub(r"ms=[0-9]+", "ms=N", why)[:120], "why": why})
+    cov["hung_update_scenario"] = {"stages": ["event", "check", "download"], "limit_ms": 10000,
+                                   "transports": {}}
+    # once with the network callbacks parked, once over real HTTP with the server holding the update's connection open and silent
+    for tag, extra in (("callbacks", []), ("real-http", ["--http"])):
+        p = run([DRIVE_BIN] + extra + ["--hung"], env=ENV, timeout=900)
+        lines = [l for l in p.stdout.splitlines() if l.startswith("HUNG ")]
+        bad = [l for l in lines if "verdict=ok" not in l]
+        cov["hung_update_scenario"]["transports"][tag] = {"calls_timed": len(lines), "blocked_or_wrong": len(bad)}
+        if p.returncode != 0 or len(lines) < 27 or bad:
+            why = bad[0] if bad else "the scenario did not complete: rc=%d %s" % (p.returncode, p.stderr[-300:].replace("\n", " "))
+            path = chk.save_replay("C12-hung-update-%s.txt" % tag, "# hung-scenario%s\n# C12: %s\n# replay: tools/replay.sh <this file>   (runs the harness's `drive %s--hung`)\n%s\n"
+                                   % (" http" if extra else "", why, "--http " if extra else "", "\n".join(lines)))
+            chk.violations.append({"replay": path, "signature": "hung-update:" + tag + ":" + re.sub(r"ms=[0-9]+", "ms=N", why)[:120], "why": why})
     if not build_interposer(chk):
         return cov
     text = "\n".join(r[0] for r in results if r[0])
